@@ -8,7 +8,7 @@ from vt import detsched as ds
 ID = 'C08'
 ENGINE = 'detsched'
 TECHNIQUE = 'runtime monitoring: stable-priority-queue conformance checker over the operation log of the fabric queues (recorded under the queue mutex) and publish call/return records, with delivery threads starved by a deterministic cooperative scheduler'
-RULE = ('bursts of 3-40 unique-id publications with priorities from a small set (many ties) from 1-3 publisher threads (in half of the runs a first part is published while the fabric is NOT running - before its first start or between a stop and the next start - so a backlog waits when the rest arrives) while the delivery '
+RULE = ('bursts of 3-40 unique-id publications with priorities from a small set (many ties; the sets include the default None = 1000, 0, negative and very large numbers) from 1-3 publisher threads (in half of the runs a first part is published while the fabric is NOT running - before its first start or between a stop and the next start - so a backlog waits when the rest arrives) while the delivery '
         'threads are starved or interleaved by detsched (random schedules with low switch probability, PCT); the fabric queues are logging '
         'PriorityQueue subclasses whose _put/_get record under the queue\'s own mutex. For every get of item X: no item present in that '
         'queue at that moment may have a smaller priority number, or an equal priority and a publish call that RETURNED before X\'s publish '
@@ -16,7 +16,7 @@ RULE = ('bursts of 3-40 unique-id publications with priorities from a small set 
         'size, publishers, multiset of priorities, max simultaneous equal-priority backlog) tuples with >= 3 equal-priority items waiting')
 CASES = {'quick': 2000, 'thorough': 100000}
 BUDGET = {'quick': 50, 'thorough': 300}
-REQUIRE = {'bursts': 800, 'gets_checked': 10000, 'bursts_with_3_equal_waiting': 300, 'bursts_multi_publisher': 200, 'bursts_with_backlog_while_stopped': 300}
+REQUIRE = {'bursts': 800, 'gets_checked': 10000, 'bursts_with_3_equal_waiting': 300, 'bursts_multi_publisher': 200, 'bursts_with_backlog_while_stopped': 300, 'bursts_with_zero_or_negative_priority': 200}
 ASSUME = ['the fabric is running; one delivery thread per kind']
 ANNOUNCE_CASES = True
 
@@ -24,7 +24,9 @@ ANNOUNCE_CASES = True
 def run_case(ctx, n):
   rng = ctx.rng('case', n)
   npub = rng.choice([1, 1, 2, 3])
-  prios = rng.choice([[1000], [1, 1000], [1, 2, 3], [5, 5, 5, 7], [None, 1000, 10]])
+  prios = rng.choice([[1000], [1, 1000], [1, 2, 3], [5, 5, 5, 7], [None, 1000, 10], [0, 1, None], [0, 0, 2, 1000], [-3, 0, 4], [2 ** 40, 7, None]])
+  if any(p is not None and p <= 0 for p in prios):
+    ctx.count('bursts_with_zero_or_negative_priority')
   total = rng.randint(3, 40)
   plans = [[] for _ in range(npub)]
   for u in range(1, total + 1):
@@ -99,14 +101,18 @@ def run_case(ctx, n):
           present = [x for x in present if x is not item]
           gets.append(u)
           cx = calls.get(u)
+          # priorities as REQUESTED by the publisher (what the fabric wrote into its own record is not trusted);
+          # a publication whose publish call is still running has no record yet: the fabric's record is used then
+          px = cx[2] if cx else item.priority
           for y in present:
             cy = calls.get(y.event.payload)
-            if y.priority < item.priority:
-              ctx.violation('C08/lower-priority-delivered-first', '%s fabric queue: publication %d (priority %s) was taken while publication %d (priority %s) was waiting' % (qname, u, item.priority, y.event.payload, y.priority), wit)
+            py = cy[2] if cy else y.priority
+            if py < px:
+              ctx.violation('C08/lower-priority-delivered-first', '%s fabric queue: publication %d (published with priority %s) was taken while publication %d (published with priority %s) was waiting' % (qname, u, px, y.event.payload, py), wit)
               return
-            if y.priority == item.priority and cx and cy and cy[1] < cx[0]:
+            if py == px and cx and cy and cy[1] < cx[0]:
               ctx.violation('C08/equal-priority-out-of-publish-order', '%s fabric queue: publication %d was taken before publication %d of the same priority %s, although the publish call of %d had returned (step %d) before the publish call of %d started (step %d)' % (
-                qname, u, y.event.payload, item.priority, y.event.payload, cy[1], u, cx[0]), dict(wit, get_order=gets))
+                qname, u, y.event.payload, px, y.event.payload, cy[1], u, cx[0]), dict(wit, get_order=gets))
               return
       arrived = [e.payload for e in sub]
       if arrived != gets:
